@@ -36,3 +36,20 @@ Example C17_example :
   let s := sm_run 3 [OJoin 0 0; OSeat 0; OJoin 2 0; OSeat 2] in
   (2 <= playable_count s)%nat /\ fst (sm_next s) <> s.
 Proof. split; [vm_compute; lia|vm_compute; discriminate]. Qed.
+
+(* if, even after the waiting players have been let in (that is what nextDealer does first), fewer than two
+   players can play, the move is refused with the insufficient-players error; otherwise it succeeds *)
+Theorem C17_refused_exactly_when_fewer_than_two_can_play :
+  forall s,
+    (snd (next_dealer s) = None \/ (playable_count (fst (next_dealer s)) < 2)%nat -> snd (sm_next s) = SErrInsufficient) /\
+    (snd (next_dealer s) <> None -> (2 <= playable_count (fst (next_dealer s)))%nat -> snd (sm_next s) = SOk).
+Proof.
+  intros s. pose proof (sm_next_never_panics s) as Hnp. unfold sm_next in *.
+  destruct (next_dealer s) as [s1 [d|]] eqn:E; cbn [fst snd] in *.
+  - destruct (Nat.ltb (playable_count s1) 2) eqn:El.
+    + apply Nat.ltb_lt in El. split; [reflexivity|intros _ H; lia].
+    + apply Nat.ltb_ge in El. split; [intros [H|H]; [discriminate|lia]|].
+      intros _ _. destruct (renew s1 d); [reflexivity|exfalso; apply Hnp; reflexivity].
+  - split; [reflexivity|intros H; contradiction].
+Qed.
+Print Assumptions C17_refused_exactly_when_fewer_than_two_can_play.
